@@ -17,7 +17,7 @@ from .proxies import SymInt, SymBytes
 PID = "C16"
 _G = {}
 ITEMS = ["fast_first_other_seq", "trunc0", "trunc1", "trunc2", "unknown_pgn", "out_of_range", "bad_text", "bad_usb", "unmatched_multi",
-         "units_decoder_same_payload", "encoder_use", "single_b", "trunc_single", "claim_to_other_decoder"]
+         "units_decoder_same_payload", "encoder_use", "single_b", "trunc_single", "claim_to_other_decoder", "claim_a_everywhere", "bad_claim_a"]
 
 
 def do_item(R, dec, others, w, item, sym):
@@ -51,6 +51,13 @@ def do_item(R, dec, others, w, item, sym):
             for kind in ("single", "fast"):
                 feed(others["units"], w, kind, "a")
             return None
+        if item == "claim_a_everywhere":
+            return None            # handled by the harness: every decoder of the comparison (references included) gets this valid claim first
+        if item == "bad_claim_a":
+            # an address claim from source a with another NAME whose system instance (14) is outside its range: rejected with an error
+            bad = z3.Concat(z3.Extract(63, 60, w.name2), z3.BitVecVal(14, 4), z3.Extract(55, 0, w.name2))
+            body = [SymInt(z3.ZeroExt(1, z3.Extract(8 * i + 7, 8 * i, bad)), 8) for i in range(8)]
+            return dec._decode(60928, 6, w.src("a"), 255, TS, SymBytes(body[::-1]), b"")
         if item == "claim_to_other_decoder":
             feed(others["units"], w, "claim1", "a")       # another decoder instance learns the identity of the probe's source address
             return None
@@ -110,17 +117,23 @@ def _worker(histories):
             # results - e.g. through a cache - would otherwise change on both sides of the comparison)
             return [x if isinstance(x, tuple) or x is None else ("SUMMARY", msg_summary(x)) for x in xs]
 
+        def newdec():
+            d_ = R.decoder.NMEA2000Decoder()
+            if "claim_a_everywhere" in hist:
+                feed(d_, w, "claim1", "a")       # a valid claim known to every decoder of the comparison
+            return d_
+
         def h():
-            ref0 = snap(probes(R, R.decoder.NMEA2000Decoder(), w, sym))      # before any other instance has been used
-            B = R.decoder.NMEA2000Decoder()
+            ref0 = snap(probes(R, newdec(), w, sym))      # before any other instance has been used
+            B = newdec()
             others = {"units": R.decoder.NMEA2000Decoder(preferred_units={PQ.ANGLE: "deg", PQ.TEMPERATURE: "C"}), "encoder": R.encoder.NMEA2000Encoder()}
-            A = R.decoder.NMEA2000Decoder()
-            A2 = R.decoder.NMEA2000Decoder()
+            A = newdec()
+            A2 = newdec()
             outA = snap([do_item(R, A, others, w, it, sym) for it in hist])
             outA2 = snap([do_item(R, A2, others, w, it, sym) for it in hist])
             pa_ = snap(probes(R, A, w, sym))
             pb_ = snap(probes(R, B, w, sym))
-            C = R.decoder.NMEA2000Decoder()
+            C = newdec()
             pc_ = snap(probes(R, C, w, sym))
             defaults = [d_ for d_ in R.decoder.NMEA2000Decoder.__init__.__defaults__ if isinstance(d_, (list, dict))]
             return outA, outA2, pa_, pb_, pc_, all(len(d_) == 0 for d_ in defaults), ref0
@@ -269,6 +282,10 @@ def replay(r):
                 return None
             if it == "single_b":
                 return single(dec, "b")
+            if it == "claim_a_everywhere":
+                return None
+            if it == "bad_claim_a":
+                return dec._decode(60928, 6, src("a"), 255, TS, BAD.to_bytes(8, "little")[::-1], b"")
         except Exception as e:
             return ("raised", type(e).__name__)
 
@@ -285,14 +302,22 @@ def replay(r):
             return m
         return (m.PGN, m.id, m.source, m.destination, m.priority, [(f.id, f.value, f.raw_value, f.unit_of_measurement) for f in m.fields],
                 None if m.source_iso_name is None else m.source_iso_name.name, m.hash)
-    ref0 = [summ(x) for x in probes_(N.decoder.NMEA2000Decoder())]
-    B = N.decoder.NMEA2000Decoder()
+    GOOD = 1234 | (229 << 21) | (130 << 40) | (10 << 49) | (4 << 60)
+    BAD = 4321 | (137 << 21) | (130 << 40) | (10 << 49) | (14 << 56) | (4 << 60)        # system instance 14: outside its range
+
+    def newdec():
+        d_ = N.decoder.NMEA2000Decoder()
+        if "claim_a_everywhere" in r["history"]:
+            d_._decode(60928, 6, src("a"), 255, TS, GOOD.to_bytes(8, "little")[::-1], b"")
+        return d_
+    ref0 = [summ(x) for x in probes_(newdec())]
+    B = newdec()
     others = {"units": N.decoder.NMEA2000Decoder(preferred_units={PQ.ANGLE: "deg", PQ.TEMPERATURE: "C"}), "encoder": N.encoder.NMEA2000Encoder()}
-    A, A2 = N.decoder.NMEA2000Decoder(), N.decoder.NMEA2000Decoder()
+    A, A2 = newdec(), newdec()
     oa = [summ(item(A, others, it)) for it in r["history"]]
     oa2 = [summ(item(A2, others, it)) for it in r["history"]]
     pa_, pb_ = [summ(x) for x in probes_(A)], [summ(x) for x in probes_(B)]
-    pc_ = [summ(x) for x in probes_(N.decoder.NMEA2000Decoder())]
+    pc_ = [summ(x) for x in probes_(newdec())]
     problems = []
     if oa != oa2:
         problems.append("same history gives %r and %r" % (oa, oa2))
